@@ -575,8 +575,11 @@ class InvSim(AoefSim):
         node = self.node(op["node"])
         reply = node.call(
             "arrange", spec=spec, target=target, doc_path=path,
-            handle=op["h"], _env=self.env(None),
+            handle=op["h"], base_spec=op.get("base_spec"),
+            _env=self.env(None),
         )
+        if op.get("base_spec") is not None:
+            self.probes.hit("C04:arrangement-reached-by-in-place-edit")
         if reply["outcome"] != "value":
             raise HarnessError(f"arrangement substrate failed: {reply}")
         verdicts = {k: v["verdict"] for k, v in reply["paths"].items()}
@@ -642,15 +645,32 @@ def mutate(spec, rng, seed_tag):
         "number", "clip_times", "task_drop", "task_orphan", "identity",
     ]
     name = rng.choice(ops)
+    # half of the time the annotation / prediction record keeps its identifier
+    # and only its content changes ("same ids, new content": the live object
+    # that was already validated once is modified in place on the node)
+    inplace = rng.random() < 0.5
     ces = list(range(len(s["clip_evaluations"])))
     ces_m = _ces_with_matches(s)
 
     def ce_target(i):
         s["roots"]["evaluation"]["clip_evaluations"] = [i]
-        return {
+        out = {
             "spec": s, "operator": name, "root": "evaluation",
             "target": {"cls": "ClipEvaluation", "index": i},
         }
+        if inplace:
+            out["base_spec"] = spec
+            out["operator"] = name + "@inplace"
+        return out
+
+    def replace_parent(e, side, pool, parent):
+        """Install a modified clip annotation / prediction for evaluation e."""
+        if inplace:
+            s[pool][e[side]] = parent  # same uuid, same index
+        else:
+            parent["uuid"] = _new_uuid(rng.getrandbits(40))
+            s[pool].append(parent)
+            e[side] = len(s[pool]) - 1
 
     def new_match(src):
         m = dict(src, uuid=_new_uuid(rng.getrandbits(40)))
@@ -722,9 +742,7 @@ def mutate(spec, rng, seed_tag):
             return None
         parent["sound_events"] = list(parent["sound_events"])
         del parent["sound_events"][rng.randrange(len(parent["sound_events"]))]
-        parent["uuid"] = _new_uuid(rng.getrandbits(40))
-        s[pool].append(parent)
-        e[side] = len(s[pool]) - 1
+        replace_parent(e, side, pool, parent)
         return ce_target(i)
     if name == "add_annotation" and ces:
         i = rng.choice(ces)
@@ -740,9 +758,7 @@ def mutate(spec, rng, seed_tag):
         parent["sound_events"] = list(parent.get("sound_events", [])) + [
             rng.choice(free)
         ]
-        parent["uuid"] = _new_uuid(rng.getrandbits(40))
-        s[pool].append(parent)
-        e[side] = len(s[pool]) - 1
+        replace_parent(e, side, pool, parent)
         return ce_target(i)
     if name == "split_match" and ces_m:
         i = rng.choice(ces_m)
@@ -776,9 +792,7 @@ def mutate(spec, rng, seed_tag):
             parent["sound_events"] = [
                 x for x in parent.get("sound_events", []) if x != m[side]
             ]
-            parent["uuid"] = _new_uuid(rng.getrandbits(40))
-            s[pool].append(parent)
-            e[key] = len(s[pool]) - 1
+            replace_parent(e, key, pool, parent)
         return ce_target(i)
     if name == "reorder" and ces_m:
         i = rng.choice(ces_m)
@@ -795,9 +809,7 @@ def mutate(spec, rng, seed_tag):
         parent["sound_events"] = list(parent["sound_events"]) + [
             rng.choice(parent["sound_events"])
         ]
-        parent["uuid"] = _new_uuid(rng.getrandbits(40))
-        s[pool].append(parent)
-        e[side] = len(s[pool]) - 1
+        replace_parent(e, side, pool, parent)
         return ce_target(i)
     if name == "number":
         value = rng.choice(SCORE_VALUES_VALID + SCORE_VALUES_INVALID)
@@ -1099,6 +1111,7 @@ CORE_PROBES = {
         "C04:load-accepted",
         "C04:load-rejected",
         "C04:arrangement-checked",
+        "C04:arrangement-reached-by-in-place-edit",
         "C04:target:ClipEvaluation",
         "C04:target:Match",
         "C04:target:Clip",
